@@ -6,7 +6,7 @@ import pv
 PROP = 'C24'
 LEAN_MODULE = 'ParsecVerif.Props.C24'
 DRIVERS = ['pv_C24']
-THEOREMS = []
+
 IMPL = ('parsec/interfaces/ptg/ptg-compiler: parsec.y (function rule), jdf.c (jdf_assign_ldef_index, jdf_flatten_function, '
         'jdf_sanity_check_flows_and_deps_number, jdf_sanity_checks), main.c (main), jdf2c.c (jdf_generate_task_typedef, '
         'jdf_generate_dataflow, jdf_generate_one_function); the parsec-ptgpp executable end to end')
@@ -122,7 +122,7 @@ def _task_target(fl, d):
 
 def renderable(funcs):
     """Side conditions under which render_shape yields a program that passes every check of ptgpp other than
-    the limits: READ/RW flows have an input; the inputs of a WRITE flow are `<- NEW`; a flow that receives from
+    the limits: READ/RW flows have an input; the only input of a WRITE flow is one `<- NEW`; a flow that receives from
     (sends to) a task must also have an output (input) because the peer is the same flow of the same task class."""
     for f in funcs:
         if f['nl'] < 1 or f['ll'] > f['nl'] - 1:
@@ -135,8 +135,10 @@ def renderable(funcs):
             for d in fl['deps']:
                 if d['g'] != 't' and d['c'] != 0:
                     return False
-                if fl['acc'] == 'w' and not d['out'] and (d['g'], d['a'], d['b'], d['c']) != ('u', 0, 0, 0):
+                if fl['acc'] == 'w' and not d['out'] and ((d['g'], d['a'], d['b'], d['c']) != ('u', 0, 0, 0) or nin > 1):
                     return False
+                if fl['acc'] != 'c' and not d['out'] and (d['b'] > 0 or d['c'] > 0):
+                    return False       # local definitions on the call of a data input: the C does not compile (finding F11)
                 if _task_target(fl, d) and (nin == 0 or nout == 0):
                     return False
                 if d['g'] == 'u' and _task_target(fl, d) and (d['a'] > 0) != (d['b'] > 0):
@@ -451,15 +453,36 @@ def gen_program(rng, strict=False):
 def damage(rng, txt):
     """One syntactic or semantic damage applied to a valid program.  Returns (text, name of the damage).
     The result may still be a valid program: the oracle does not assume it is not."""
+    for _ in range(6):
+        out, name = _damage1(rng, txt)
+        if out is not None and out != txt:
+            return out, name
     lines = txt.split('\n')
-    idx = [i for i, l in enumerate(lines) if l.strip()]
+    i = rng.choice([i for i, l in enumerate(lines) if l.strip()])
+    return '\n'.join(lines[:i] + lines[i + 1:]), 'drop-line'
+
+
+def _damage1(rng, txt):
+    # never inside embedded C (BODY … END, extern "C" %{ … %}, inline %{ … %}): ptgpp copies it verbatim, by design
+    prot = [(m.start(), m.end()) for m in re.finditer(r'\nBODY\n(.|\n)*?\nEND\n|%\{(.|\n)*?%\}', txt)]
+
+    def free(a, b):
+        return all(b <= s or a >= e for s, e in prot)
+    lines = txt.split('\n')
+    pos, idx = 0, []
+    for i, l in enumerate(lines):
+        if l.strip() and free(pos, pos + len(l)):
+            idx.append(i)
+        pos += len(l) + 1
+    if not idx:
+        return None, None
     k = rng.below(22)
 
-    def sub(pat, rep, count=1, pick=True):
-        ms = list(re.finditer(pat, txt))
+    def sub(pat, rep):
+        ms = [m for m in re.finditer(pat, txt) if free(m.start(), m.end())]
         if not ms:
             return None
-        m = rng.choice(ms) if pick else ms[0]
+        m = rng.choice(ms)
         return txt[:m.start()] + m.expand(rep) + txt[m.end():]
     out, name = None, None
     if k == 0:
@@ -478,9 +501,12 @@ def damage(rng, txt):
     elif k == 6:
         name, out = 'duplicate-global', txt.replace('NT  [type = int]', 'NT  [type = int]\nNT  [type = int]', 1)
     elif k == 7:
-        name, out = 'drop-END', sub(r'\nEND\n', '\n')
+        i = txt.rfind('\nEND\n')          # the last one only: an earlier END missing turns the next task class into C text
+        name, out = 'drop-END', (txt[:i] + txt[i + 4:]) if i >= 0 else None
     elif k == 8:
-        name, out = 'drop-BODY', sub(r'\nBODY\n', '\n')
+        ms = list(re.finditer(r'\nBODY\n', txt))
+        m = rng.choice(ms) if ms else None
+        name, out = 'drop-BODY', (txt[:m.start()] + txt[m.end() - 1:]) if m else None
     elif k == 9:
         name, out = 'param-without-definition', sub(r'\n(T\d|POTRF|GEMM|bcast)\(k', r'\n\1(zz, k')
     elif k == 10:
@@ -511,12 +537,9 @@ def damage(rng, txt):
     elif k == 20:
         name, out = 'two-data-ternary', sub(r'(<-|->) ([^\n?]*) \? (A\([^\n]*\))\n', r'\1 \2 ? \3 : \3\n')
     else:
-        toks = list(re.finditer(r'\S+', txt))
+        toks = [m for m in re.finditer(r'\S+', txt) if free(m.start(), m.end())]
         a = rng.choice(toks)
         name, out = 'drop-token', txt[:a.start()] + txt[a.end():]
-    if out is None or out == txt:
-        i = rng.choice(idx)
-        name, out = 'drop-line', '\n'.join(lines[:i] + lines[i + 1:])
     return out, name
 
 
@@ -528,7 +551,7 @@ def D(out, g='b', a=0, b=0, c=0):
 def FL(acc, nin, nout, gin='b', gout='b'):
     """a flow with nin inputs and nout outputs of the given guard kinds (the last input is unconditional)"""
     if acc == 'w':
-        ins = [D(False, 'u') for _ in range(nin)]
+        ins = [D(False, 'u') for _ in range(min(nin, 1))]
     else:
         ins = [D(False, gin) for _ in range(max(nin - 1, 0))] + ([D(False, 'u' if gin != 't' else 't')] if nin else [])
     return {'acc': acc, 'deps': ins + [D(True, gout) for _ in range(nout)]}
@@ -635,6 +658,11 @@ def repair(funcs):
                     d['c'] = 0
                 if fl['acc'] == 'w' and not d['out']:
                     d.update(g='u', a=0, b=0, c=0)
+                if fl['acc'] != 'c' and not d['out']:
+                    d.update(b=0, c=0)
+            if fl['acc'] == 'w':        # at most one `<- NEW`
+                ins = [d for d in fl['deps'] if not d['out']]
+                fl['deps'] = ins[:1] + [d for d in fl['deps'] if d['out']]
             for _ in range(2):
                 nin = sum(1 for d in fl['deps'] if not d['out'])
                 nout = len(fl['deps']) - nin
@@ -723,33 +751,53 @@ def read_limits(build):
     return {'maxParam': g('MAX_PARAM_COUNT'), 'maxLocal': g('MAX_LOCAL_COUNT'), 'maxDepIn': g('MAX_DEP_IN_COUNT'), 'maxDepOut': g('MAX_DEP_OUT_COUNT')}
 
 
-def observe(env, name, text, flags):
-    """Run the case: the real parsec-ptgpp twice, the instrumented copy once, the C compiler on accepted output."""
+_cc_cache = {}
+
+
+def _cc_cached(env, r, cfile):
+    if r['c'] is None or r['h'] is None:
+        return (False, 'no output file although exit status 0')
+    k = hashlib.sha1(r['c'] + b'\0' + r['h']).hexdigest()
+    if k not in _cc_cache:
+        _cc_cache[k] = cc_syntax(env['build'], cfile)
+    return _cc_cache[k]
+
+
+def observe(env, name, text, modes=(0, 1)):
+    """Run one program: per mode (0: default command line, 1: --Werror) the real parsec-ptgpp (twice in mode 0:
+    byte comparison), once the instrumented copy (mode 0), and the C compiler on accepted output.
+    Returns {mode: observation}."""
     d = os.path.join(env['dir'], name)
-    os.makedirs(d, exist_ok=True)
-    jdf = os.path.join(d, name + '.jdf')
-    with open(jdf, 'w') as f:
-        f.write(text)
-    r1 = run_ptgpp(env['ptgpp'], jdf, os.path.join(d, name), flags)
-    d2 = os.path.join(d, 'second')
-    os.makedirs(d2, exist_ok=True)
-    r2 = run_ptgpp(env['ptgpp'], jdf, os.path.join(d2, name), flags)
-    ds = os.path.join(d, 'san')
-    os.makedirs(ds, exist_ok=True)
-    rs = run_ptgpp(env['san'], jdf, os.path.join(ds, name), flags, env=SAN_ENV)
-    o = {'name': name, 'flags': list(flags), 'jdf': jdf, 'r': r1, 'text': text}
-    o['same'] = all(r1[k] == r2[k] for k in ('rc', 'sig', 'out', 'err', 'c', 'h'))
-    o['san'] = sorted(set(m.group(1) for m in SAN_RE.finditer(rs['err'])))
-    if rs['sig'] and not o['san']:
-        o['san'] = ['instrumented copy killed by signal %d' % rs['sig']]
-    o['san_same'] = bool(o['san']) or (rs['rc'] == r1['rc'] and rs['c'] == r1['c'] and rs['h'] == r1['h'])
-    o['cc'] = None
-    if r1['rc'] == 0 and r1['sig'] == 0:
-        if r1['c'] is None or r1['h'] is None:
-            o['cc'] = (False, 'no output file although exit status 0')
-        else:
-            o['cc'] = cc_syntax(env['build'], os.path.join(d, name + '.c'))
-    return o
+    shutil.rmtree(d, ignore_errors=True)
+    res = {}
+    for w in modes:
+        flags = ['--Werror'] if w else []
+        dw = os.path.join(d, 'w%d' % w)
+        os.makedirs(dw, exist_ok=True)
+        jdf = os.path.join(dw, name + '.jdf')
+        with open(jdf, 'w') as f:
+            f.write(text)
+        r1 = run_ptgpp(env['ptgpp'], jdf, os.path.join(dw, name), flags)
+        o = {'name': name, 'mode': w, 'flags': flags, 'jdf': jdf, 'r': r1, 'same': True, 'san': [], 'san_same': True, 'cc': None}
+        if w == 0 or env.get('thorough'):
+            d2 = os.path.join(dw, 'second')
+            os.makedirs(d2, exist_ok=True)
+            shutil.copy(jdf, os.path.join(d2, name + '.jdf'))
+            # same command line (relative names, other directory): the outputs must be the same bytes
+            r2 = run_ptgpp(env['ptgpp'], jdf, os.path.join(d2, name), flags)
+            o['same'] = all(r1[k] == r2[k] for k in ('rc', 'sig', 'out', 'err', 'c', 'h'))
+        if w == 0:
+            ds = os.path.join(dw, 'san')
+            os.makedirs(ds, exist_ok=True)
+            rs = run_ptgpp(env['san'], jdf, os.path.join(ds, name), flags, env=SAN_ENV)
+            o['san'] = sorted(set(m.group(1) for m in SAN_RE.finditer(rs['err'])))
+            if rs['sig'] and not o['san']:
+                o['san'] = ['instrumented copy killed by signal %d' % rs['sig']]
+            o['san_same'] = bool(o['san']) or (rs['rc'] == r1['rc'] and rs['c'] == r1['c'] and rs['h'] == r1['h'])
+        if r1['rc'] == 0 and r1['sig'] == 0:
+            o['cc'] = _cc_cached(env, r1, os.path.join(dw, name + '.c'))
+        res[w] = o
+    return res
 
 
 W_RE = [
@@ -863,3 +911,429 @@ def observed_outcome(o, L):
     if o['cc'][0]:
         return 'emit-ok-but-error-blocks warn=%s cerr=%s' % (ws, _fmt(es, RANK_E))
     return 'emit-bad warn=%s cerr=%s' % (ws, _fmt(es, RANK_E))
+
+
+# ------------------------------------------------------------------ the property, evaluated on the runs
+K_DEFAULT = 'F1-sanity-verdict-ignored-without-Werror'
+K_FLOWS = 'F2-total-flow-count-only-guarded-by-#error'
+K_TERNARY = 'F3-ternary-dependency-counted-once-fills-two-slots'
+K_LDEF = 'F4-ternary-true-branch-local-definitions-not-counted'
+K_WRAP = 'F5-dependency-index-test-wraps-at-32'
+K_TWODATA = 'F6-ternary-with-two-data-references-redefinition'
+K_REDECL = 'F7-local-definition-name-reused-in-two-dependencies'
+K_STRBUF = 'F8-lexer-string-buffer-overflow'
+K_DERIVED = 'F9-local-definition-in-derived-local'
+K_PRIO = 'F10-unbound-variable-in-priority-not-checked'
+K_CALLLDEF = 'F11-local-definition-on-call-of-data-input'
+
+
+def classify_uncompilable(o, L):
+    """root cause of `exit 0 but the C does not compile`, from what the compilers printed"""
+    err = o['r']['err']
+    ccerr = o['cc'][1].replace('‘', "'").replace('’', "'")
+    es = [l for l in ccerr.splitlines() if ' error: ' in l or 'fatal error: ' in l]
+    kinds = set()
+    for l in es:
+        if '#error' in l or "size of array 'unused' is negative" in l or "size of array 'reserved' is negative" in l:
+            kinds.add('limit')
+        elif 'redefinition of' in l and '_direct_access' in l:
+            kinds.add('twodata')
+        elif re.search(r"has no member named 'ldef'", l):
+            kinds.add('noldef')
+        elif re.search(r"redeclaration of '\w+' with no linkage", l):
+            kinds.add('redecl')
+        else:
+            kinds.add('other')
+    diagnosed = bool(re.search(r'^(Fatal Error|Warning|Error) on ', err, re.M)) or 'parse error' in err
+    if o['mode'] == 0 and diagnosed and ('limit' in kinds or 'other' in kinds) and not (kinds & {'twodata', 'noldef', 'redecl'}):
+        # ptgpp saw and reported the problem; without --Werror main() ignores the (negative) answer of jdf_sanity_checks
+        return K_DEFAULT, es
+    if kinds == {'limit'}:
+        fired = set(e[0] for e in fired_errors(o, L))
+        if fired <= {'flows', 'unused'}:
+            return K_FLOWS, es
+        return 'limit-left-to-the-C-compiler:%s' % '+'.join(sorted(fired)), es
+    if kinds == {'twodata'}:
+        return K_TWODATA, es
+    if kinds == {'noldef'}:
+        return K_LDEF, es
+    if kinds == {'redecl'}:
+        return K_REDECL, es
+    und = [re.search(r"'(\w+)' undeclared", l) for l in es]
+    if kinds == {'other'} and all(und):
+        # every error is an undeclared identifier that the JDF uses only in priority expressions (`; expr`)
+        txt = open(o['jdf']).read()
+        prio = ' '.join(re.findall(r'^\s*;[^\n]*', txt, re.M))
+        rest = re.sub(r'^\s*;[^\n]*', '', txt, flags=re.M)
+        names = set(m.group(1) for m in und)
+        if all(re.search(r'\b%s\b' % re.escape(n), prio) and not re.search(r'\b%s\b' % re.escape(n), rest) for n in names):
+            return K_PRIO, es
+    return 'accepted-but-uncompilable', es
+
+
+def classify_san(msgs):
+    keys = {}
+    for m in msgs:
+        if 'shift exponent' in m or 'left shift of 1 by 31' in m:
+            keys.setdefault(K_WRAP, []).append(m)
+        elif 'global-buffer-overflow' in m:
+            keys.setdefault(K_STRBUF + '?', []).append(m)      # confirmed below with the stack frame
+        else:
+            keys.setdefault('sanitizer:' + re.sub(r'0x[0-9a-f]+|\d+', 'N', m)[:80], []).append(m)
+    return keys
+
+
+def judge(case, o, L):
+    """The property statement on one run.  Returns a list of (key, what)."""
+    v = []
+    r = o['r']
+    mode = 'default command line' if o['mode'] == 0 else '--Werror'
+    if r['sig']:
+        if o['mode'] == 0 and re.search(r'^Fatal Error on ', r['err'], re.M):
+            # the sanity checks found a fatal error; main() went on because --Werror was not given, and jdf2c crashed
+            v.append((K_DEFAULT, 'parsec-ptgpp (default command line) printed a fatal error, went on and was killed by signal %d: %s' % (r['sig'], r['err'].strip()[:200])))
+        else:
+            v.append(('ptgpp-killed-by-signal-%d' % r['sig'], 'parsec-ptgpp (%s) was killed by signal %d; stderr: %s' % (mode, r['sig'], r['err'][-300:])))
+        return v
+    if not o['same']:
+        v.append(('output-differs-between-two-runs', 'two runs of parsec-ptgpp (%s) on the same input differ (exit status, messages or emitted files)' % mode))
+    if not o['san_same']:
+        v.append(('instrumented-copy-differs', 'the ASan/UBSan build of the same sources gives another exit status or other files than the installed binary'))
+    for k, ms in classify_san(o['san']).items():
+        if k == K_STRBUF + '?':
+            k = K_STRBUF if re.search(r'"[^"\n]{1024,}', case['text']) else 'sanitizer:global-buffer-overflow'
+        v.append((k, 'instrumented parsec-ptgpp: ' + ' | '.join(ms)[:400]))
+    if r['rc'] != 0:
+        if not (r['err'] + r['out']).strip():
+            v.append(('rejected-without-diagnostic', 'exit status %s and nothing printed (%s)' % (r['rc'], mode)))
+    else:
+        if not o['cc'][0]:
+            k, es = classify_uncompilable(o, L)
+            v.append((k, 'exit status 0 (%s) but the emitted C does not compile: %s%s' % (
+                mode, ' ; '.join(e.split(': ', 1)[-1][:120] for e in es[:3]), (' ; ptgpp said: ' + r['err'].strip()[:200]) if r['err'].strip() else '')))
+    if case['kind'] == 'shape':
+        why = oracle_exceeds(case['shape'], L)
+        if why and r['rc'] == 0 and o['cc'][0]:
+            cnt = counted(case['shape'], L)
+            for w in why:
+                kind = w.split(':')[0]
+                if kind in ('dep_in', 'dep_out') and not cnt['deps']:
+                    k = K_TERNARY
+                elif kind == 'locals' and not cnt['locals']:
+                    k = K_LDEF
+                elif kind in ('outmask', 'inmask') and not cnt['window']:
+                    k = K_WRAP
+                else:
+                    k = 'over-limit-accepted:' + kind
+                v.append((k, 'program exceeds a runtime limit (%s) but parsec-ptgpp (%s) exits 0 and the C compiles' % (w, mode)))
+    seen, out = set(), []
+    for k, w in v:
+        if k not in seen:
+            seen.add(k)
+            out.append((k, w))
+    return out
+
+
+# ------------------------------------------------------------------ corpus
+def load_corpus():
+    """corpus/C24/*.case: header lines `key: value` (kind shape|jdf, finding, modes, note), a line `---`,
+    then the shape tokens or the JDF text."""
+    d = os.path.join(pv.ROOT, 'corpus', PROP)
+    cases = []
+    for fn in sorted(os.listdir(d)) if os.path.isdir(d) else []:
+        if not fn.endswith('.case'):
+            continue
+        head, _, body = open(os.path.join(d, fn)).read().partition('\n---\n')
+        h = {}
+        for ln in head.splitlines():
+            if ln.strip() and not ln.startswith('#'):
+                k, _, val = ln.partition(':')
+                h[k.strip()] = val.strip()
+        name = 'c' + re.sub(r'\W', '_', fn[:-5])
+        c = {'name': name, 'origin': 'corpus:' + fn, 'kind': h.get('kind', 'jdf'), 'finding': h.get('finding') or None,
+             'modes': tuple(int(x) for x in h.get('modes', '0 1').split())}
+        if c['kind'] == 'shape':
+            c['shape'] = parse_shape(body.split())
+            c['text'] = render_shape(c['shape'])
+        else:
+            c['text'] = body
+        cases.append(c)
+    return cases
+
+
+def shape_case(name, origin, funcs):
+    return {'name': name, 'origin': origin, 'kind': 'shape', 'shape': funcs, 'text': render_shape(funcs), 'finding': None, 'modes': (0, 1)}
+
+
+def make_cases(ctx, L):
+    rng = pv.Rng(ctx.seed)
+    q = ctx.quick
+    B = boundary_shapes(L)
+    if q:
+        # a seed-dependent half of the boundary shapes; the corpus holds the witnesses of the theorems
+        idx = sorted(range(len(B)), key=lambda i: rng.fork(1000 + i).next())[:len(B) // 3]
+        B = [B[i] for i in sorted(idx)]
+    groups = {
+        'boundary': [shape_case('b%d' % i, 'boundary:' + nm, s) for i, (nm, s) in enumerate(B)],
+        'random-shape': [shape_case('r%d' % i, 'random-shape', random_shape(rng.fork(2000 + i), L)) for i in range(10 if q else 200)],
+        'valid': [], 'strict': [], 'damaged': []}
+    for i in range(16 if q else 200):
+        t, feat = gen_program(rng.fork(3000 + i))
+        groups['valid'].append({'name': 'v%d' % i, 'origin': 'valid', 'kind': 'jdf', 'text': t, 'feat': feat, 'finding': None, 'modes': (0,), 'expect_ok': True})
+    for i in range(8 if q else 80):
+        t, feat = gen_program(rng.fork(4000 + i), strict=True)
+        groups['strict'].append({'name': 's%d' % i, 'origin': 'strict', 'kind': 'jdf', 'text': t, 'feat': feat, 'finding': None, 'modes': (0, 1), 'expect_ok': True})
+    for i in range(18 if q else 300):
+        r = rng.fork(5000 + i)
+        t, feat = gen_program(r, strict=r.chance(1, 2))
+        t2, op = damage(r, t)
+        groups['damaged'].append({'name': 'd%d' % i, 'origin': 'damaged:' + op, 'kind': 'jdf', 'text': t2, 'feat': feat, 'finding': None, 'modes': (0, 1)})
+    # interleave, so that a time budget cuts every group alike
+    order = []
+    gl = [groups[k] for k in ('boundary', 'valid', 'damaged', 'random-shape', 'strict')]
+    n = max(len(g) for g in gl)
+    for i in range(n):
+        for g in gl:
+            if i * len(g) // n != (i + 1) * len(g) // n:
+                order.append(g[i * len(g) // n])
+    return load_corpus(), order
+
+
+# ------------------------------------------------------------------ run
+def setup_env(ctx, res):
+    src = os.path.join(pv.REPO, 'parsec', 'interfaces', 'ptg', 'ptg-compiler')
+    gen = os.path.join(ctx.build, 'parsec', 'interfaces', 'ptg', 'ptg-compiler')
+    # the instrumented copy is rebuilt whenever one byte of its inputs changes (sources of the compiler in the
+    # current tree, generated parser, configuration headers, this harness); otherwise the cached binary is reused
+    hh = hashlib.sha1()
+    inputs = [os.path.join(src, f) for f in sorted(os.listdir(src)) if f.endswith(('.c', '.h', '.y', '.l'))]
+    inputs += [os.path.join(gen, f) for f in ('parsec.y.c', 'parsec.y.h', 'parsec.l.c')]
+    inputs += [os.path.join(ctx.build, 'parsec', 'include', 'parsec', f) for f in ('parsec_options.h', 'parsec_config.h')]
+    inputs += [os.path.join(pv.ROOT, 'harness', 'C24.c'), os.path.join(pv.ROOT, 'lib', 'pv.py')]
+    for f in inputs:
+        hh.update(f.encode() + b'\0')
+        hh.update(open(f, 'rb').read() if os.path.exists(f) else b'<missing>')
+    cache = os.path.join(pv.WORK, 'cache')
+    os.makedirs(cache, exist_ok=True)
+    exe = os.path.join(cache, 'C24-' + hh.hexdigest()[:16])
+    extra = ['-Dmain=ptgpp_main', '-I' + src, '-I' + gen, '-w', '-fsanitize-recover=shift',
+             os.path.join(src, 'jdf.c'), os.path.join(src, 'jdf2c.c'), os.path.join(src, 'jdf_unparse.c'),
+             os.path.join(gen, 'parsec.y.c'), os.path.join(gen, 'parsec.l.c')]
+    if not os.path.exists(exe):
+        ok, log = pv.cc_harness(os.path.join(pv.ROOT, 'harness', 'C24.c'), exe + '.tmp', ctx.build, extra=extra, sanitize=True)
+        if not ok:
+            res.infra_errors.append('harness compile failed: ' + log[-1500:])
+            return None
+        os.replace(exe + '.tmp', exe)
+    ptgpp = os.path.join(gen, 'parsec-ptgpp')
+    if not os.path.exists(ptgpp):
+        res.infra_errors.append('no parsec-ptgpp in the build: ' + ptgpp)
+        return None
+    cc_prepare(ctx.build)
+    return {'dir': ctx.path('cases'), 'build': ctx.build, 'ptgpp': ptgpp, 'san': exe, 'thorough': not ctx.quick}
+
+
+def model_lines(ctx, L, ops):
+    if not ctx.driver_ok or not ops:
+        return None
+    rc, lines, err = pv.run_driver('pv_C24', ['limits %d %d %d %d' % (L['maxParam'], L['maxLocal'], L['maxDepIn'], L['maxDepOut'])] + ops)
+    if rc != 0 or len(lines) != len(ops) + 1 or lines[0] != 'ok':
+        return ['<driver failed: rc=%s %s>' % (rc, err[-200:])] * len(ops)
+    return lines[1:]
+
+
+def run_cases(env, cases, budget=None, floor=0):
+    import time
+    t0 = time.time()
+    done = []
+    chunk = 16
+    with ThreadPoolExecutor(8) as ex:
+        for i in range(0, len(cases), chunk):
+            if budget is not None and len(done) >= floor and time.time() - t0 > budget:
+                break
+            part = cases[i:i + chunk]
+            for c, obs in zip(part, ex.map(lambda c: observe(env, c['name'], c['text'], c['modes']), part)):
+                done.append((c, obs))
+    return done
+
+
+def evaluate(ctx, res, L, done, stats):
+    """model correspondence (shape cases) + the oracle of the statement (all cases)"""
+    ops, who = [], []
+    for c, obs in done:
+        if c['kind'] == 'shape':
+            toks = ' '.join(shape_tokens(c['shape']))
+            for w, o in sorted(obs.items()):
+                ops.append('prog %d %s' % (w, toks))
+                who.append((c, o))
+            ops.append('spec ' + toks)
+            who.append((c, None))
+    model = model_lines(ctx, L, ops)
+    if model is None and ops:
+        res.notes.append('model driver unavailable: correspondence not run, oracle only')
+    for n, (c, o) in enumerate(who):
+        if o is None:
+            impl = 'counted=%d runtime=%d' % (int(any(v for k, v in counted(c['shape'], L).items() if k != 'window')), int(bool(oracle_exceeds(c['shape'], L))))
+        else:
+            impl = observed_outcome(o, L)
+            res.traces_validated += 1
+            stats['outcome:' + impl.split(' ')[0]] = stats.get('outcome:' + impl.split(' ')[0], 0) + 1
+            if len(res.samples) < 8 and (n % 7 == 0):
+                res.samples.append('%s => %s' % (ops[n][:160], impl))
+        if model is not None and impl != model[n]:
+            res.disagreements.append({'op': ops[n], 'impl': impl, 'model': model[n], 'case': c['origin']})
+    nviol = 0
+    for c, obs in done:
+        h = hashlib.sha1(c['text'].encode()).hexdigest()[:12]
+        for w, o in sorted(obs.items()):
+            res.evaluations += 1
+            res.nontrivial('%s/%d' % (h, w))
+            st = 'rc=%s' % o['r']['rc'] if not o['r']['sig'] else 'signal'
+            if o['r']['rc'] == 0:
+                st += ',cc=%s' % ('ok' if o['cc'][0] else 'fail')
+            key = '%s:%s' % (c['origin'].split(':')[0], st)
+            stats[key] = stats.get(key, 0) + 1
+            vs = judge(c, o, L)
+            if c.get('expect_ok') and o['r']['rc'] != 0:
+                # not a failure of the property (a rejection with a diagnostic is allowed) but of the generator
+                stats['valid-program-rejected'] = stats.get('valid-program-rejected', 0) + 1
+                res.notes.append('generator: program meant to be valid was rejected (%s): %s' % (c['name'], o['r']['err'][:160].replace('\n', ' ')))
+            for k, what in vs:
+                if c.get('finding') and not k.startswith(('output-differs', 'instrumented-copy')):
+                    k = c['finding']
+                nviol += 1
+                res.violations.append({'key': k, 'what': '%s [%s]' % (what, c['origin']), 'seed': ctx.seed,
+                                       'case': {'kind': c['kind'], 'mode': w, 'origin': c['origin'], 'finding': c.get('finding'),
+                                                'shape': ' '.join(shape_tokens(c['shape'])) if c['kind'] == 'shape' else None,
+                                                'text': c['text'] if c['kind'] == 'jdf' else None}})
+        if c.get('finding') and not any(judge(c, o, L) for o in obs.values()):
+            res.notes.append('corpus case %s: finding %s does not reproduce any more' % (c['origin'], c['finding']))
+        for f in c.get('feat', []):
+            stats['feature:' + f] = stats.get('feature:' + f, 0) + 1
+        if c['origin'].startswith('damaged:'):
+            stats[c['origin']] = stats.get(c['origin'], 0) + 1
+    return nviol
+
+
+def shrink_new(ctx, res, env, L):
+    """minimise the cases of violations that are not listed findings (bounded effort)"""
+    known = set(f['key'] for f in pv.known_findings(PROP))
+    seen = set()
+    n = 0
+    for v in res.violations:
+        if v['key'] in known or v['key'] in seen or n >= 3:
+            continue
+        seen.add(v['key'])
+        n += 1
+        c = v['case']
+        tag = 'm%d' % n
+
+        def still(text, shape=None):
+            case = {'kind': c['kind'], 'text': text, 'shape': shape, 'origin': 'shrink', 'finding': None}
+            o = observe(env, tag, text, (c['mode'],))[c['mode']]
+            return any(k == v['key'] for k, _ in judge(case, o, L))
+        try:
+            if c['kind'] == 'jdf':
+                lines = c['text'].split('\n')
+                small = pv.ddmin(lines, lambda ls: still('\n'.join(ls)), max_tests=60)
+                c['text'] = '\n'.join(small)
+            else:
+                funcs = parse_shape(c['shape'].split())
+                changed = True
+                while changed:
+                    changed = False
+                    for cand in _shape_reductions(funcs):
+                        if renderable(cand) and still(render_shape(cand), cand):
+                            funcs, changed = cand, True
+                            break
+                c['shape'] = ' '.join(shape_tokens(funcs))
+                c['text'] = render_shape(funcs)
+            v['minimised'] = True
+        except Exception as ex:      # shrinking is best effort
+            v['minimised'] = 'failed: %r' % ex
+
+
+def _shape_reductions(funcs):
+    import copy
+    for j in range(len(funcs)):
+        if len(funcs) > 1:
+            yield [copy.deepcopy(f) for k, f in enumerate(funcs) if k != j]
+        f = funcs[j]
+        for i in range(len(f['flows'])):
+            g = copy.deepcopy(funcs)
+            del g[j]['flows'][i]
+            yield g
+            for n in range(len(f['flows'][i]['deps'])):
+                g = copy.deepcopy(funcs)
+                del g[j]['flows'][i]['deps'][n]
+                yield g
+        if f['nl'] > 1:
+            g = copy.deepcopy(funcs)
+            g[j]['nl'] -= 1
+            g[j]['ll'] = min(g[j]['ll'], g[j]['nl'] - 1)
+            yield g
+
+
+def run(ctx, res):
+    env = setup_env(ctx, res)
+    if env is None:
+        return
+    L = read_limits(ctx.build)
+    stats = {}
+    corpus, gen = make_cases(ctx, L)
+    done = run_cases(env, corpus)
+    done += run_cases(env, gen, budget=(40 if ctx.quick else 780), floor=(24 if ctx.quick else 300))
+    stats['cases_generated'] = len(gen)
+    stats['cases_run'] = len(done)
+    evaluate(ctx, res, L, done, stats)
+    if res.disagreements and ctx.quick is False:
+        pass
+    shrink_new(ctx, res, env, L)
+    res.rule = ('case = one JDF program x one command line (default / --Werror). Corpus (witnesses of the theorems and of the findings) + '
+                'boundary shapes on both sides of every limit + random shapes + grammar-generated valid programs (1-3 task classes, ranges, steps, '
+                'derived locals, inline C, pipes/chains between flows, CTL gathers, NEW/NULL, ternaries, ranges and local definitions in outputs, '
+                'priorities, properties) + the same with one syntactic/semantic damage. Each: real parsec-ptgpp (twice in default mode, bytes compared), '
+                'ASan/UBSan build of the same sources, gcc -fsyntax-only on accepted output. distinct = distinct (program text, mode); every case is non-trivial '
+                '(>= 1 task class reaching the parser)')
+    res.extra['input_distribution'] = dict(sorted(stats.items()))
+    res.extra['limits'] = L
+    res.extra['exhaustive'] = False
+
+
+def replay(ctx, res, data):
+    env = setup_env(ctx, res)
+    if env is None:
+        return
+    L = read_limits(ctx.build)
+    cases = []
+    for n, v in enumerate(data.get('violations', [])):
+        c = v.get('case') or {}
+        if c.get('kind') == 'shape':
+            cases.append(dict(shape_case('p%d' % n, 'replay', parse_shape(c['shape'].split())), modes=(c.get('mode', 0),)))
+        elif c.get('text'):
+            cases.append({'name': 'p%d' % n, 'origin': 'replay', 'kind': 'jdf', 'text': c['text'], 'finding': None, 'modes': (c.get('mode', 0),)})
+    done = run_cases(env, cases)
+    evaluate(ctx, res, L, done, {})
+
+
+THEOREMS = ['ParsecVerif.C24.' + t for t in (
+    'clean_iff', 'rejected_iff', 'limits_never_clean', 'limits_rejected_werror_partial', 'locals_always_rejected',
+    'counted_le_runtime', 'runtime_limits_partial', 'shl_form', 'default_flags_not_rejected', 'total_flows_not_rejected',
+    'ternary_deps_accepted', 'ternary_ldef_accepted', 'accepted_not_compilable', 'index_wrap_accepted', 'not_limits_full')]
+LEVEL_TEXT = ('Only the limit decision logic is a theorem. Lean 4 theorems over every build configuration, command line and program shape: exact '
+              'characterisation of the three outcomes (refused by ptgpp / accepted with C that a firing #error stops / accepted cleanly), '
+              '"a limit exceeded as ptgpp counts it is never accepted cleanly", "under --Werror ptgpp itself refuses it (all checked limits)", '
+              '"too many locals are refused whatever the command line", "what ptgpp counts never exceeds what the runtime needs", and the runtime limits '
+              'for programs without ternary dependencies and < 32 dependencies per class. The full statement (always rejected by ptgpp) is proved FALSE '
+              'of the code with five witnesses that are replayed on the real compiler (known findings F1-F5). Everything else of the property — accepted '
+              'programs compile, two runs give identical bytes, rejection comes with a diagnostic and a non-zero status, no crash — is grammar-based '
+              'differential exploration of the real parsec-ptgpp (installed binary + ASan/UBSan build of the same sources + gcc -fsyntax-only), not a theorem.')
+LEVEL_NOTE = ('The model covers jdf_assign_ldef_index, jdf_flatten_function (index test, x86 shift semantics for counts >= 32: the C is undefined there), '
+              'jdf_sanity_check_flows_and_deps_number, main() and the limit tests/#error blocks of jdf2c.c over a shape (counts only); the 8.6 kLOC C printer and gcc are '
+              'outside any model. The tie renders shapes into JDF programs that pass every other check and compares exit status, the limit warnings (with their '
+              'numbers), the fatal message and the firing #error blocks of the emitted files with the model, line by line. Sampled, not proved: compilability, determinism, diagnostics.')
+TECHNIQUE = ('Lean 4 proof of the limit decision logic (hand-written model, exact iff characterisation + negative witnesses) tied by end-to-end differential runs of the real '
+             'compiler; grammar-based differential exploration (valid / single-damage / limit-exceeding programs) for the rest')
+ASSUMPTIONS = ['a shape is rendered into a program that passes every check of ptgpp other than the limits (checked on every run: the within-limit shapes must be accepted under --Werror)',
+               'gcc 12 -fsyntax-only with the include paths of the build stands for "the emitted C compiles"; warnings (e.g. excess elements in array initializer) are not errors',
+               'shift counts >= 32 in jdf_flatten_function are undefined in C; the model takes the x86 behaviour (count modulo 32), which the differential runs confirm for this build']
